@@ -36,15 +36,26 @@ macro_rules! impl_policy {
             pub fn add(&self, key: u64, cost: i64) -> (Option<Vec<PolicyPair>>, bool) {
                 let mut inner = self.inner.lock();
                 let max_cost = inner.costs.get_max_cost();
+                #[cfg(transparencies_stretto_verif)]
+                crate::verif::observe::emit(|seq| crate::verif::observe::Ev::AddEnter {
+                    seq,
+                    key,
+                    cost,
+                    st: inner.costs.verif_state(),
+                });
 
                 // cannot ad an item bigger than entire cache
                 if cost > max_cost {
+                    #[cfg(transparencies_stretto_verif)]
+                    crate::verif::observe::add_return(key, cost, 0, &[], inner.costs.verif_state_if());
                     return (None, false);
                 }
 
                 // no need to go any further if the item is already in the cache
                 if inner.costs.update(&key, cost) {
                     // an update does not count as an addition, so return false.
+                    #[cfg(transparencies_stretto_verif)]
+                    crate::verif::observe::add_return(key, cost, 1, &[], inner.costs.verif_state_if());
                     return (None, false);
                 }
 
@@ -56,6 +67,8 @@ macro_rules! impl_policy {
                     // overflowing. Do that now and stop here.
                     inner.costs.increment(key, cost);
                     self.metrics.add(MetricType::CostAdd, key, cost as u64);
+                    #[cfg(transparencies_stretto_verif)]
+                    crate::verif::observe::add_return(key, cost, 2, &[], inner.costs.verif_state_if());
                     return (None, true);
                 }
 
@@ -90,9 +103,29 @@ macro_rules! impl_policy {
                         }
                     });
 
+                    #[cfg(transparencies_stretto_verif)]
+                    crate::verif::observe::emit(|seq| crate::verif::observe::Ev::AddIter {
+                        seq,
+                        key,
+                        cost,
+                        room,
+                        inc_hits,
+                        min_hits,
+                        sample: sample.iter().map(|p| (p.key, p.cost)).collect(),
+                        victim: min_key,
+                    });
+
                     // If the incoming item isn't worth keeping in the policy, reject.
                     if inc_hits < min_hits {
                         self.metrics.add(MetricType::RejectSets, key, 1);
+                        #[cfg(transparencies_stretto_verif)]
+                        crate::verif::observe::add_return(
+                            key,
+                            cost,
+                            3,
+                            &victims,
+                            inner.costs.verif_state_if(),
+                        );
                         return (Some(victims), false);
                     }
 
@@ -115,6 +148,8 @@ macro_rules! impl_policy {
 
                 inner.costs.increment(key, cost);
                 self.metrics.add(MetricType::CostAdd, key, cost as u64);
+                #[cfg(transparencies_stretto_verif)]
+                crate::verif::observe::add_return(key, cost, 4, &victims, inner.costs.verif_state_if());
                 (Some(victims), true)
             }
 
@@ -131,6 +166,12 @@ macro_rules! impl_policy {
                     self.metrics.add(MetricType::CostEvict, *k, cost as u64);
                     self.metrics.add(MetricType::KeyEvict, *k, 1);
                 });
+                #[cfg(transparencies_stretto_verif)]
+                crate::verif::observe::emit(|seq| crate::verif::observe::Ev::Remove {
+                    seq,
+                    key: *k,
+                    st: inner.costs.verif_state(),
+                });
             }
 
             #[inline]
@@ -143,6 +184,13 @@ macro_rules! impl_policy {
             pub fn update(&self, k: &u64, cost: i64) {
                 let mut inner = self.inner.lock();
                 inner.costs.update(k, cost);
+                #[cfg(transparencies_stretto_verif)]
+                crate::verif::observe::emit(|seq| crate::verif::observe::Ev::Update {
+                    seq,
+                    key: *k,
+                    cost,
+                    st: inner.costs.verif_state(),
+                });
             }
 
             #[inline]
@@ -156,6 +204,11 @@ macro_rules! impl_policy {
                 let mut inner = self.inner.lock();
                 inner.admit.clear();
                 inner.costs.clear();
+                #[cfg(transparencies_stretto_verif)]
+                crate::verif::observe::emit(|seq| crate::verif::observe::Ev::Clear {
+                    seq,
+                    st: inner.costs.verif_state(),
+                });
             }
 
             #[cfg(transparencies_stretto_verif)]
@@ -182,6 +235,8 @@ macro_rules! impl_policy {
             #[inline]
             pub fn update_max_cost(&self, mc: i64) {
                 let inner = self.inner.lock();
+                #[cfg(transparencies_stretto_verif)]
+                crate::verif::observe::emit(|seq| crate::verif::observe::Ev::MaxCost { seq, max_cost: mc });
                 inner.costs.update_max_cost(mc)
             }
         }
@@ -307,6 +362,25 @@ impl<S: BuildHasher + Clone + 'static> SampledLFU<S> {
             used: 0,
             key_costs: HashMap::with_hasher(hasher),
             metrics: Arc::new(Metrics::Noop),
+        }
+    }
+
+    #[cfg(transparencies_stretto_verif)]
+    pub(crate) fn verif_state(&self) -> crate::verif::observe::Costs {
+        crate::verif::observe::Costs {
+            used: self.used,
+            sum: self.key_costs.values().map(|c| *c as i128).sum(),
+            keys: self.key_costs.len(),
+            max_cost: self.get_max_cost(),
+        }
+    }
+
+    #[cfg(transparencies_stretto_verif)]
+    pub(crate) fn verif_state_if(&self) -> Option<crate::verif::observe::Costs> {
+        if crate::verif::observe::enabled() {
+            Some(self.verif_state())
+        } else {
+            None
         }
     }
 
@@ -510,5 +584,10 @@ impl TinyLFU {
     #[inline]
     pub fn contains(&self, kh: u64) -> bool {
         self.doorkeeper.contains(kh)
+    }
+
+    #[cfg(transparencies_stretto_verif)]
+    pub(crate) fn verif_parts(&self) -> (&CountMinSketch, &Bloom, usize, usize) {
+        (&self.ctr, &self.doorkeeper, self.samples, self.w)
     }
 }
